@@ -27,6 +27,29 @@
 namespace celma::container {
 
 
+namespace {
+
+
+/// Returns the new size of the vector when it must grow to hold the given
+/// position: 1.5 times the number of bits needed.<br>
+/// Computed with integer arithmetic, since the floating point result does not
+/// fit into a size_t anymore for huge positions.
+///
+/// @param[in]  data  The vector that should be resized.
+/// @param[in]  pos   The position that must fit into the vector.
+/// @return  The new size.
+/// @throw  std::length_error if the position is too big.
+size_t sizeFor( const std::vector< bool>& data, size_t pos)
+{
+   if (pos >= data.max_size() / 2)
+      throw std::length_error( "position is too big for a dynamic bitset");
+   return (pos + 1) + (pos + 1) / 2;
+} // sizeFor
+
+
+} // namespace
+
+
 
 /// Constructor.
 ///
@@ -192,7 +215,7 @@ DynamicBitset& DynamicBitset::set( size_t pos, bool value)
 {
 
    if (pos >= mData.size())
-      mData.resize( (pos + 1) * 1.5);
+      mData.resize( sizeFor( mData, pos));
 
    mData[ pos] = value;
 
@@ -224,7 +247,7 @@ DynamicBitset& DynamicBitset::reset( size_t pos)
 {
 
    if (pos >= mData.size())
-      mData.resize( (pos + 1) * 1.5);
+      mData.resize( sizeFor( mData, pos));
 
    mData[ pos] = false;
 
@@ -256,7 +279,7 @@ DynamicBitset& DynamicBitset::flip( size_t pos)
 {
 
    if (pos >= mData.size())
-      mData.resize( (pos + 1) * 1.5);
+      mData.resize( sizeFor( mData, pos));
 
    mData[ pos] = !mData[ pos];
 
@@ -369,7 +392,7 @@ DynamicBitset::reference DynamicBitset::operator []( size_t pos) noexcept( true)
 {
 
    if (pos >= mData.size())
-      mData.resize( (pos + 1) * 1.5);
+      mData.resize( sizeFor( mData, pos));
 
    return mData[ pos];
 } // DynamicBitset::operator []
